@@ -301,6 +301,9 @@ var refIdentRe = regexp.MustCompile(`^[A-Za-z_][A-Za-z0-9_]*$`)
 var refAlwaysFailsRe = regexp.MustCompile(`^(template|fail) "[A-Za-z0-9 _-]*"$`)
 var refIndexRe = regexp.MustCompile(`^index (\.[A-Za-z_][A-Za-z0-9_]*(?:\.[A-Za-z_][A-Za-z0-9_]*)*) [0-9]+$`)
 
+var refDollarRe = regexp.MustCompile(`^\$(\.[A-Za-z_][A-Za-z0-9_]*(?:\.[A-Za-z_][A-Za-z0-9_]*)*)$`)
+var refIndexKeyRe = regexp.MustCompile(`^index [.$] "([A-Za-z_][A-Za-z0-9_]*)"$`)
+
 // actions that make the text unparsable whatever surrounds them: a block keyword without its value or without its
 // block, a function nobody defined
 var refNeverParsesRe = regexp.MustCompile(`^(end|else|if|range|with|nosuchfunc)$`)
@@ -343,6 +346,13 @@ func refParseTmpl(t string) []refSeg {
 		isIndex := false
 		if m := refIndexRe.FindStringSubmatch(inner); m != nil {
 			inner, isIndex = m[1], true
+		}
+		// the other spellings of a data reference: the chain on the root variable ($ is dot at the top of a template),
+		// the index function with ONE key on dot / on $ (a map: the value of the key, nothing for a missing one)
+		if m := refDollarRe.FindStringSubmatch(inner); m != nil {
+			inner = m[1]
+		} else if m := refIndexKeyRe.FindStringSubmatch(inner); m != nil {
+			inner = "." + m[1]
 		}
 		if !strings.HasPrefix(inner, ".") {
 			refOut("template action %q is outside the fragment", inner)
